@@ -40,6 +40,7 @@ class HostGen:
         self.allow_until = allow_until
         self.allow_quantum = allow_quantum
         self.p_cond_regmeas = 0.04
+        self.p_empty_body = 0.0      # bodies of loops / ifs / foreach / loop_until that contain nothing
         self.manual_registers = False
         self.all_mr = []
         self.templates = []       # template names for rotation numerators (C06)
@@ -123,6 +124,8 @@ class HostGen:
         out: List[dict] = []
         mine: List[str] = []     # qubits allocated in this block
         self.unconditional = top
+        if not top and self.p_empty_body and r.random() < self.p_empty_body:
+            return out
         for _ in range(nst):
             self.unconditional = top
             kinds = ["add"] * 3 + ["if"] * 3 + ["array"]
@@ -323,8 +326,10 @@ class HostGen:
         var = self.name("w")
         c = self.body_scope(sc)
         mx = r.choice([1, 2, 3, 4, 6])
-        body = self.block(c, depth + 1, r.randrange(0, 3))
-        if self.allow_quantum and len(c.qubits) < self.budget and r.random() < 0.7:
+        full0 = [a for a, d in sc.arrays.items() if d["full"] and not d.get("ro")]
+        empty = bool(full0) and bool(self.p_empty_body) and r.random() < 2 * self.p_empty_body
+        body = [] if empty else self.block(c, depth + 1, r.randrange(0, 3))
+        if not empty and self.allow_quantum and len(c.qubits) < self.budget and r.random() < 0.7:
             # the documented pattern: measure a fresh qubit, exit when the outcome is at most 0
             q = self.name("q")
             f = self.name("m")
@@ -338,11 +343,13 @@ class HostGen:
                 return None
             a = r.choice(full)
             ent = {"kind": "entry", "array": a, "idx": r.randrange(sc.arrays[a]["len"])}
-            body += [{"op": "add", "target": ent, "other": r.choice([-1, -1, -2, 1]), "mod": None}]
+            if not empty:      # (empty: nothing at all in the body - the exit value never changes, the loop exits at once or runs out of tries)
+                body += [{"op": "add", "target": ent, "other": r.choice([-1, -1, -2, 1]), "mod": None}]
             exit_ = {"val": copy.deepcopy(ent), "atmost": r.choice([0, 1, -1, 2])}
         st = {"op": "until", "max": mx, "var": var, "body": body, "exit": exit_}
         full = [a for a, d in sc.arrays.items() if d["full"] and not d.get("ro")]
-        if full and r.random() < 0.35:
+        if full and r.random() < 0.35 and not empty:
+            # (no clean-up between the tries of a loop that tries nothing: the SDK emits no loop at all for an empty body)
             a = r.choice(full)
             st["cleanup"] = [{"op": "add", "target": {"kind": "entry", "array": a, "idx": r.randrange(sc.arrays[a]["len"])},
                               "other": r.choice([1, 2, {"kind": "var", "name": var}]), "mod": r.choice([None, 7])}]
